@@ -82,7 +82,8 @@ impl ByteReader for Cursor<'_> {
 
 /// Helper function to read an array of u32 values
 pub fn read_u32_array(reader: &mut impl ByteReader, count: usize) -> ParseResult<Vec<u32>> {
-    let mut values = Vec::with_capacity(count);
+    // `count` comes from the file: it is only a pre-allocation hint
+    let mut values = Vec::with_capacity(count.min(1 << 16));
     for _ in 0..count {
         values.push(reader.read_u32_le()?);
     }
